@@ -110,6 +110,7 @@ func GenDisjoint(r *hx.Rng, shape string) *Program {
 		}
 		budget := p.Store.Slot - ninit // adds that keep a "removed"/"mixed-small" store a single node
 		var gets, writes []Op
+		removedOne := false
 		for k := 0; k < nops; k++ {
 			kind := "add"
 			switch shape {
@@ -117,6 +118,12 @@ func GenDisjoint(r *hx.Rng, shape string) *Program {
 				kind = hx.Pick(r, []string{"remove", "remove", "remove", "add"})
 				if kind == "add" && budget <= 0 {
 					kind = "remove"
+				}
+				if kind == "remove" && removedOne { // two removals by one writer: separate finding (multi-remove-tracks-wrong-item)
+					continue
+				}
+				if kind == "remove" {
+					removedOne = true
 				}
 			case "mixed":
 				kind = hx.Pick(r, []string{"add", "add", "addne", "upsert", "update", "updkey", "get"})
@@ -255,7 +262,7 @@ func CorpusC04() []*Program {
 		two("doc-example", u4, kvs(10, 20, 30), "add:5000:1 add:5001:2 add:5002:3", "add:5500:4 add:5501:5 add:5502:6", "W1#20", "W2#20", "W1#20", "W2*", "W1*"),
 		two("sequential-merge", u4, kvs(10, 20, 30), "add:40:40", "add:5:5 update:20:21 remove:30", seq...),
 		two("same-leaf-split", u2, kvs(10, 20), "add:11:1 add:12:2", "add:13:3 add:14:4", "W1@reg.UpdateNoLocks", "W2@l2.Lock", "W1*", "W2*"),
-		two("removed-from-one-node", u4, kvs(10, 20, 30, 40), "remove:10", "remove:40 remove:30", "W1*", "W2*"),
+		two("removed-from-one-node", u4, kvs(10, 20, 30, 40), "remove:10", "remove:40", "W1*", "W2*"),
 		two("non-unique-values-outside", n4, kvs(10, 20, 30), "add:41:1 update:10:2", "add:42:3 remove:20", "W2*", "W1*"),
 		two("first-root-sequential", u4, nil, "add:1:1 add:3:3", "add:2:2 add:10:10", seq...),
 		// --- known defect classes
@@ -271,6 +278,8 @@ func CorpusC04() []*Program {
 		two("known:merge-get-then-shift", u4, kvs(10, 20, 30), "add:40:40", "get:20 remove:10", seq...),
 		// W2 waits for W1's node lock, refetches, and then trips over its own item lock record
 		two("known:merge-self-item-lock-conflict", u4, kvs(10, 20, 30), "update:10:11", "remove:30", "W1@reg.UpdateNoLocks", "W2@sr.GetWithTTL", "W1*", "W2*"),
+		// two removals by one writer in one leaf, then a refetch round: it looks for an item it never touched
+		two("known:multi-remove", sopx.StoreOpts{Slot: 3, Unique: true, InNode: false}, kvs(10, 20, 30), "remove:30", "remove:20 remove:10", seq...),
 		// removing an item that sits in an inner node: the tracker records the successor item instead
 		two("known:remove-inner-item", u2, kvs(10, 20, 30, 40, 50, 60, 70), "add:75:75", "remove:60", seq...),
 		// a new root with children is registered before its children: a concurrent merger walks into a missing child
@@ -279,7 +288,7 @@ func CorpusC04() []*Program {
 			Schedule: []string{"W2#9", "W2#1", "W2#5", "W1", "W1#8", "W1", "W1#8", "W2#3", "W1", "W1", "W2#14", "W1#12", "W1#12", "W2#8", "W1"}},
 	}
 	// remove-then-add: the outcome depends on Go's map iteration order; a few attempts make a hit very likely
-	for i := 0; i < 4; i++ {
+	for i := 0; i < 10; i++ {
 		ps = append(ps, two("known:merge-remove-then-add", u4, kvs(10, 20, 30), "add:40:40", "remove:10 add:10:99", seq...))
 	}
 	return ps
